@@ -151,6 +151,21 @@ func block(cond func() bool, why string) {
 // Yield is an explicit scheduling point (used by the harness inside callbacks).
 func Yield() { point() }
 
+var fine bool
+
+// SetFine switches the fine-grained mode: when on, the LibYield calls that the overlay rewriter
+// places at every function entry and loop iteration of the library become scheduling points, so
+// that unsynchronised accesses to state shared between calls (package-level caches, buffers) are
+// interleaved at statement-block granularity.
+func SetFine(on bool) { fine = on }
+
+// LibYield is inserted into the library by the rewriter (function entries, loop bodies).
+func LibYield() {
+	if fine {
+		point()
+	}
+}
+
 // Go starts f as a new logical thread (replacement of the go statement).
 func Go(f func()) {
 	if !Active() {
